@@ -1,1 +1,55 @@
-// kani harnesses for this module (see /verif/DESIGN.md)
+// K14: Doc::first_line (src/buffer.rs) – bounded: two Text tokens over a payload of 2 + 2 ASCII bytes.
+// From C12 ("each subcommand with its description") and C04 (never panics): the short description is the text
+// of the description up to its first line break – nothing after it, nothing twice.
+use super::*;
+
+#[kani::proof]
+#[kani::unwind(8)]
+fn k14_first_line_two_tokens() {
+    let b: [u8; 4] = kani::any();
+    kani::assume(b[0] < 128 && b[1] < 128 && b[2] < 128 && b[3] < 128);
+    let mut v = Vec::with_capacity(4);
+    v.push(b[0]);
+    v.push(b[1]);
+    v.push(b[2]);
+    v.push(b[3]);
+    // sound: all four bytes are ASCII
+    let payload = unsafe { String::from_utf8_unchecked(v) };
+    let mut tokens = Vec::with_capacity(2);
+    tokens.push(Token::Text { bytes: 2, style: Style::Text });
+    tokens.push(Token::Text { bytes: 2, style: Style::Literal });
+    let doc = Doc { payload, tokens };
+    let r = doc.first_line();
+    assert!(r.is_some());
+    let r = r.unwrap();
+    // expected: the prefix of the payload up to (not including) the first newline
+    let mut n = 0;
+    while n < 4 && b[n] != b'\n' {
+        n += 1;
+    }
+    let out = r.payload.as_bytes();
+    assert!(out.len() == n);
+    let mut i = 0;
+    while i < 4 {
+        if i < n {
+            assert!(out[i] == b[i]);
+        }
+        i += 1;
+    }
+    // token lengths add up to the payload
+    let mut total = 0;
+    let mut k = 0;
+    while k < 2 {
+        if k < r.tokens.len() {
+            if let Token::Text { bytes, .. } = r.tokens[k] {
+                total += bytes;
+            }
+        }
+        k += 1;
+    }
+    assert!(total == n);
+    kani::cover!(b[0] == b'\n');
+    kani::cover!(b[1] == b'\n' && b[2] == b'\n');
+    std::mem::forget(r);
+    std::mem::forget(doc);
+}
